@@ -160,6 +160,43 @@ func RunC01(c *Ctx) {
 		if idx%97 == 0 {
 			r.Sample(map[string]interface{}{"index": idx, "cfg": t.Cfg.String(), "refs": len(refs), "logs": len(logs), "bytes": len(data), "first_lines": firstLines(got, 3)})
 		}
+		if idx%8 == 1 {
+			flakyWriterSweep(c, idx, t)
+		}
+	}
+}
+
+// flakyWriterSweep: the same table is written through an io.Writer whose k-th Write fails
+// (once, or from then on), for every k (at most 40 evenly spread k per table). A table is
+// "produced without error" only if every Write succeeded: when a Write failed, some
+// AddRef/AddLog/Close call must report an error - a writer that swallows the error hands
+// its caller (Stack.Add, compaction) a corrupt file as good - and it must not panic.
+func flakyWriterSweep(c *Ctx, idx int, t *gen.Table) {
+	r := c.Rep
+	count := &rtx.FlakyWriter{}
+	if err := rtx.WriteTableFlaky(t, count); err != nil {
+		return
+	}
+	step := 1 + count.Writes/40
+	for k := 1; k <= count.Writes; k += step {
+		for _, sticky := range []bool{false, true} {
+			fw := &rtx.FlakyWriter{FailAt: k, Sticky: sticky}
+			err := rtx.WriteTableFlaky(t, fw)
+			r.Evaluations++
+			r.Count("writer_runs_with_failing_write", 1)
+			if !fw.Failed {
+				continue
+			}
+			cs := mkCase(c, "GenTable", idx, t, fmt.Sprintf("Write #%d of %d fails (sticky=%v)", k, count.Writes, sticky))
+			switch {
+			case rtx.IsPanic(err):
+				r.Violate([]string{"C01"}, "writer-panics-after-failed-write|"+PanicSig(err), fmt.Sprintf("Write #%d of %d failed (sticky=%v): the writer panicked: %s", k, count.Writes, sticky, PanicDetail(err)), cs)
+			case err == nil:
+				r.Violate([]string{"C01"}, "writer-reports-success-after-failed-write", fmt.Sprintf("Write #%d of %d to the underlying io.Writer failed (sticky=%v) but AddRef/AddLog/Close all returned nil: the table is reported as produced without error although bytes are missing", k, count.Writes, sticky), cs)
+			default:
+				r.Nontrivial(rep.Hash("flaky", fmt.Sprint(c.Seed), fmt.Sprint(idx), fmt.Sprint(k), fmt.Sprint(sticky)))
+			}
+		}
 	}
 }
 
